@@ -161,6 +161,17 @@ func runProbe(c Case) (string, *rig.Violation) {
 	return string(b), nil
 }
 
+// tagMW is a stateless middleware: safe to share between instances and goroutines.
+type tagMW string
+
+func (m tagMW) Middleware(next *rig.H, method, pattern, router string) *rig.H {
+	return &rig.H{ID: string(m) + "(" + next.ID + ")", Kind: "mw", MW: string(m), Next: next}
+}
+
+// commonMW is what applications do with shared middlewares: one package-level slice (with
+// spare capacity, as append leaves it) handed to the facades of every router; nobody may write to it.
+var commonMW = append(make([]types.Middleware[*rig.H], 0, 4), tagMW("common"))
+
 // runInst builds one instance, mutates it and serves from it; everything it
 // touches belongs to it alone.
 func runInst(in Inst, tag string) *rig.Violation {
@@ -215,6 +226,8 @@ func runInst(in Inst, tag string) *rig.Violation {
 		front = r
 	}
 	m := ref.NewTable(in.Trace)
+	viaPrefix := map[string]bool{} // (pattern method) registered through the nested prefix
+	autoVia := map[string]bool{}   // the call that created the pattern's OPTIONS / 405 handlers went through it
 	for i, rg := range in.Regs {
 		if rg.Remove {
 			r.Remove(rg.Pattern, rg.Methods...)
@@ -225,8 +238,26 @@ func runInst(in Inst, tag string) *rig.Violation {
 			}
 		} else {
 			h := env.NewH()
-			if _, panicked := rig.Try(func() { r.Handle(rg.Pattern, h, nil, rg.Methods...) }); !panicked {
+			if _, panicked := rig.Try(func() {
+				if i%2 == 1 {
+					// through a nested prefix: this router's own middleware outside, the shared ones inside
+					r.Prefix("", tagMW("own-"+tag)).Prefix("", commonMW...).Handle(rg.Pattern, h, nil, rg.Methods...)
+				} else {
+					r.Handle(rg.Pattern, h, nil, rg.Methods...)
+				}
+			}); !panicked {
 				m.Handle(rg.Pattern, h.ID, rg.Methods)
+				for _, meth := range ref.Expand(rg.Methods) {
+					viaPrefix[rg.Pattern+" "+meth] = i%2 == 1
+				}
+				if _, had := autoVia[rg.Pattern]; !had {
+					autoVia[rg.Pattern] = i%2 == 1
+				}
+			}
+		}
+		for p := range autoVia {
+			if m.R[p] == nil {
+				delete(autoVia, p)
 			}
 		}
 		for _, p := range m.Live() {
@@ -242,8 +273,17 @@ func runInst(in Inst, tag string) *rig.Violation {
 				if want := m.Serves(p, meth); want != "" && o.BaseID != want {
 					return rig.Violf("instance-oracle", "%s: %s %s ran %s, registered %s", tag, meth, path, o.BaseID, want)
 				}
-				if fmt.Sprint(o.Trace) != fmt.Sprint(wantOnion) {
-					return rig.Violf("instance-oracle", "%s: %s %s ran middlewares %v, this router was given %v", tag, meth, path, o.Trace, wantOnion)
+				want := append([]string{}, wantOnion...)
+				lookup := meth
+				via := autoVia[p]
+				if m.Serves(p, meth) != "" {
+					via = viaPrefix[p+" "+lookup]
+				}
+				if via {
+					want = append(want, "own-"+tag, "common")
+				}
+				if fmt.Sprint(o.Trace) != fmt.Sprint(want) {
+					return rig.Violf("instance-oracle", "%s: %s %s ran middlewares %v, this router was given %v", tag, meth, path, o.Trace, want)
 				}
 				if !rig.EqualSets(o.NodeMethods, m.AllowSet(p)) {
 					return rig.Violf("instance-oracle", "%s: %s %s reports methods %v, own table says %v", tag, meth, path, o.NodeMethods, m.AllowSet(p))
